@@ -651,6 +651,36 @@ def crash_class(exc: BaseException) -> str:
     return f"{type(exc).__name__}"
 
 
+def border_rounding_style(D, capellambse, aird, kw, duid):
+    """Observe the Box.vector_snap calls made while parsing diagram duid of the model at aird and return the
+    routing style of a call whose point misses a border line of its box by a rounding error
+    (0 < distance <= 1e-9), or None.  The calls are only observed, not altered."""
+    calls = []
+    orig = D.Box.vector_snap
+
+    def rec(self, point, *, source=None, style=D.RoutingStyle.OBLIQUE):
+        calls.append((tuple(self.pos), tuple(self.size), tuple(point), style.name.lower()))
+        return orig(self, point, source=source, style=style)
+    D.Box.vector_snap = rec
+    try:
+        m = capellambse.MelodyModel(str(aird), **kw)
+        for d in m.diagrams:
+            if d._element.get("repPath", "#")[1:] == duid:
+                try:
+                    d.render(None)
+                except Exception:  # noqa: BLE001
+                    pass
+    finally:
+        D.Box.vector_snap = orig
+    for pos, size, pt, style in calls:
+        if not finite(*pos, *size, *pt):
+            continue
+        for dist in (pt[0] - pos[0], pt[0] - (pos[0] + size[0]), pt[1] - pos[1], pt[1] - (pos[1] + size[1])):
+            if 0 < abs(dist) <= 1e-9:
+                return style
+    return None
+
+
 def run_diagrams(chk: lib.Check):
     import capellambse
     from capellambse import diagram as D
@@ -744,7 +774,14 @@ def run_diagrams(chk: lib.Check):
                         continue
                     for x, y in zip(a, b):
                         if not shifted(x, y, v):
-                            chk.violation(f"diagram-translate:moved:{mname}:{dname}", f"{mname} {dname!r} translated by {v}: element {x['uuid']} did not move by exactly that vector",
+                            # a stored edge end that lies exactly on a border line at one position and a rounding
+                            # error off it at the other takes a different branch of the snapping code
+                            style = (border_rounding_style(D, capellambse, dst, kw1, duid)
+                                     or border_rounding_style(D, capellambse, aird, kw0, duid)) if x["k"] == "E" else None
+                            key = (f"diagram-translate:{style}-border-rounding" if style
+                                   else f"diagram-translate:moved:{mname}:{dname}")
+                            stats["crash_classes"][key] = stats["crash_classes"].get(key, 0) + 1
+                            chk.violation(key, f"{mname} {dname!r} translated by {v}: element {x['uuid']} did not move by exactly that vector",
                                           dict(replay, before=x, after=y))
                             break
                     va, vb = snap["viewport"], nsnap["viewport"]
